@@ -21,6 +21,12 @@ def main() -> int:
             try:
                 obj = pickle.loads(entry["pickle"])
                 r["srepr"] = sp.srepr(obj)
+                try:
+                    fresh = exprs.rebuild(obj)
+                    if fresh == obj:
+                        r["hash_consistent"] = bool(hash(fresh) == hash(obj) and obj in {fresh} and fresh in {obj})
+                except Exception as exc:  # noqa: BLE001
+                    r["rebuild_error"] = f"{type(exc).__name__}: {exc}"
                 if entry.get("value") is not None:
                     env = exprs.random_env(obj, np.random.default_rng(entry["env_seed"]))
                     v = np.asarray(exprs.numeric(obj, env)).astype(complex)
@@ -36,6 +42,17 @@ def main() -> int:
         from vmon.props.c15 import model_digests
         model = pickle.loads(payload["pickle"])
         out["digests"] = model_digests(model)
+        bad = 0
+        n_checked = 0
+        for expr in list(model.amplitudes.values())[:40] + list(model.kinematic_variables.values())[:20]:
+            try:
+                fresh = exprs.rebuild(expr)
+            except Exception:  # noqa: BLE001, S112
+                continue
+            if fresh == expr:
+                n_checked += 1
+                bad += not (hash(fresh) == hash(expr) and expr in {fresh})
+        out["hash_checked"], out["hash_inconsistent"] = n_checked, bad
         if payload.get("evaluate"):
             try:
                 pv = {s: payload["params"][s.name] for s in model.parameter_defaults if s.name in payload["params"]}
